@@ -1,5 +1,6 @@
 import Srctools.Proofs.C20
 import Srctools.Proofs.C20Tok
+import Srctools.Proofs.C20Img
 import Srctools.Props.C02
 import Srctools.Gen.C20
 import Srctools.Gen.Tok
@@ -177,6 +178,42 @@ theorem C20_lookup_image (es : List Entry) (e : Entry) (he : e ∈ es) :
     List.mem_map_of_mem ((C20_sort_perm es).mem_iff.mpr he)
   exact (C20_lookup _ _ hs).1 hm
 
+/-- **Container round trip.** For version 2 or 3, entries with 32-bit summary fields and NUL-free
+pool strings, and a file below 4 GiB: `parse_scenes_image` reads from the bytes written by
+`save_scenes_image_sync` exactly the entries, in CRC order, each with its duration, (version 3)
+last-speak time, sound list and stored data — every offset, pool index and count is resolved
+correctly. (Version 2 has no last-speak field: the reader substitutes the duration.) -/
+theorem C20_image (v : Nat) (hv : v = 2 ∨ v = 3) (es : List Entry) (hok : imgOK es)
+    (hF : (buildImage v es).length < 4294967296) :
+    parseImage (buildImage v es) = some (v, (sortEntries es).map (toParsed v)) :=
+  parse_build v hv es hok hF
+
+/-- The table read back is sorted by CRC and every entry written is found in it by the game's
+binary search, with its own CRC, duration and sound list at the index found when CRCs are distinct. -/
+theorem C20_image_table (v : Nat) (hv : v = 2 ∨ v = 3) (es : List Entry) (hok : imgOK es)
+    (hF : (buildImage v es).length < 4294967296) :
+    ∃ rows, parseImage (buildImage v es) = some (v, rows) ∧
+      (rows.map (·.crc)).Pairwise (· ≤ ·) ∧
+      ∀ e ∈ es, ∃ j r, bsearch (rows.map (·.crc)) e.crc = some j ∧ rows[j]? = some r ∧ r.crc = e.crc := by
+  refine ⟨_, C20_image v hv es hok hF, ?_, ?_⟩
+  · have := C20_sorted es
+    unfold crcSorted at this
+    simp only [List.map_map]
+    exact List.pairwise_map.mpr this
+  · intro e he
+    have hcrc : (List.map (fun x => x.crc) (List.map (toParsed v) (sortEntries es)))
+        = (sortEntries es).map (·.crc) := by
+      simp [List.map_map, Function.comp_def, toParsed]
+    obtain ⟨j, hj, hg⟩ := C20_lookup_image es e he
+    rw [hcrc]
+    refine ⟨j, ?_⟩
+    simp only [List.getElem?_map] at hg ⊢
+    cases hr : (sortEntries es)[j]? with
+    | none => simp [hr] at hg
+    | some x =>
+      simp [hr] at hg
+      exact ⟨toParsed v x, hj, rfl, by simpa [toParsed] using hg⟩
+
 /-! ## quantised fields -/
 
 /-- Writing the value a code stands for gives that code back: `round((b/K)·K)` clamped to
@@ -268,6 +305,22 @@ example : (write Gen.C20.cmdTables C20_sample_file).bind (parse Gen.C20.cmdTable
     = some C20_sample_file := by decide +kernel
 
 example : ((write Gen.C20.cmdTables C20_sample_file).map List.length) = some (31 + 4 + 4 + (128 + 4 + 2 * 804) + (128 + 4)) := by
+  decide +kernel
+
+def C20_sample_entries : List Entry :=
+  [{ crc := 900, durMs := 1500, lastMs := 1200, sounds := [[0x62], [0x61, 0x62]], strs := [[0x7a], [0x62]],
+     raw := [1, 2, 3, 4, 5, 6], comp := [9, 9] },
+   { crc := 17, durMs := 0, lastMs := 0, sounds := [], strs := [[0x61, 0x62]], raw := [7], comp := [8, 8, 8] }]
+
+example : imgOK C20_sample_entries ∧ (buildImage 3 C20_sample_entries).length < 4294967296 := by
+  refine ⟨?_, by decide +kernel⟩
+  intro e he
+  simp only [C20_sample_entries, List.mem_cons, List.not_mem_nil, or_false] at he
+  rcases he with rfl | rfl <;> decide
+
+example : parseImage (buildImage 2 C20_sample_entries) = some (2,
+    [{ crc := 17, durMs := 0, lastMs := 0, sounds := [], data := [7] },
+     { crc := 900, durMs := 1500, lastMs := 1500, sounds := [[0x62], [0x61, 0x62]], data := [9, 9] }]) := by
   decide +kernel
 
 example : bsearch [3, 5, 5, 9, 12] 9 = some 3 ∧ bsearch [3, 5, 5, 9, 12] 4 = none := by decide
